@@ -200,7 +200,7 @@ def main():
         engines=[dict(name="coq-model+correspondence", path="vp/check.py", serves_properties=claimed,
                       kind_free_text="Coq 8.16 development in coq/ (model, spec, proofs, property statements) + Rust harness + Python differential driver")],
         checks=checks,
-        notes="See DESIGN.md (sections 12-14 describe what is built). All 20 properties are claimed; not_applicable is empty. Every check: (1) rebuilds the Coq development and re-checks every theorem of Props/<id>*.v with its Print Assumptions against an allow-list (thorough tier: coqchk as well), (2) rebuilds the Rust harness and the CLI binary from /repo's working tree, (3) runs the Gallina model inside coqc (vm_compute) and the implementation on the same generated inputs and call sequences and compares, (4) evaluates the property's own predicate with an independent Python reference. KNOWN_FINDINGS.txt lists one known finding (K1, C13) and the fixed defects; seeded/ holds 160+ seeded defects used to drill the checks (DESIGN.md section 13).",
+        notes="See DESIGN.md (sections 12-14 describe what is built). All 20 properties are claimed; not_applicable is empty. Every check: (1) rebuilds the Coq development and re-checks every theorem of Props/<id>*.v with its Print Assumptions against an allow-list (thorough tier: coqchk as well), (2) rebuilds the Rust harness and the CLI binary from /repo's working tree, (3) runs the Gallina model inside coqc (vm_compute) and the implementation on the same generated inputs and call sequences and compares, (4) evaluates the property's own predicate with an independent Python reference, (5) runs three generic clauses after every generator: library calls repeated in single-process sequences (result-depends-on-earlier-calls), command-line runs repeated under option-named environment variables, a cwd with look-alike files, a pty and the release build (output-depends-on-ambient-state), and the JSON documents of the run read by the model's own JSON text reader Model/JsonText.v (json-text-vs-model; the transaction and typed-data models are also evaluated from the document's bytes). KNOWN_FINDINGS.txt lists two known findings (K1, K2: number literals rounded / flushed to zero by serde_json's floating-point reader; C13, seen through typed data in C09 as well) and the 19 fixed defects; seeded/ holds 559 seeded defects from twelve drill rounds by independent sub-agents, 554 detected, the 5 misses documented (DESIGN.md section 13).",
         not_applicable=[dict(property_id=p, reason=NOT_YET) for p in ALL if p not in claimed],
     )
     with open(os.path.join(ROOT, "MANIFEST.json"), "w") as f:
